@@ -246,6 +246,37 @@ func genC11(g *gen) {
 			g.check(v == "ok "+bstr(ref), "legacy-valid-iff", fmt.Sprintf("IsValidLegacy(%s) = %s, reference %v", hx(mut), v, ref), "a.legacyvalid "+hx(mut))
 		}
 	}
+	// checksums wrong in two or more bytes whose differences cancel under some accumulation (sum, xor, or):
+	// every pair of checksum bytes × complementary masks, three- and four-byte patterns
+	{
+		body := g.bytes(35)
+		body[1] &= 0x0f
+		h := sha256.Sum256(body)
+		good := append(append([]byte{}, body...), h[28:]...)
+		try := func(mask [4]byte) {
+			a := append([]byte{}, good...)
+			for k := 0; k < 4; k++ {
+				a[35+k] ^= mask[k]
+			}
+			ref := refLegacyValid(a)
+			v := g.op("a.legacyvalid %s", hx(a))
+			g.check(v == "ok "+bstr(ref), "legacy-valid-iff", fmt.Sprintf("IsValidLegacy(valid address with checksum xor %x) = %s, reference %v", mask[:], v, ref), "a.legacyvalid "+hx(a))
+		}
+		for i := 0; i < 4; i++ {
+			for j := i + 1; j < 4; j++ {
+				for _, m := range []int{1, 0x80, 0x7f, 0x55, 0xff} {
+					var mk [4]byte
+					mk[i], mk[j] = byte(m), byte(256-m)
+					try(mk)
+					mk[j] = byte(m) // equal masks: cancel under xor-folding
+					try(mk)
+				}
+			}
+		}
+		try([4]byte{0x80, 0x40, 0x40, 0})
+		try([4]byte{0x40, 0x40, 0x40, 0x40})
+		try([4]byte{0xff, 0xff, 0x01, 0x01})
+	}
 	for i := 0; i < 200; i++ {
 		a := g.bytes(39)
 		if i%2 == 0 {
